@@ -18,7 +18,8 @@
 #include <sys/time.h>
 #ifdef VX_COV /* diagnostic coverage builds (bin/coverage): flush the profile before every _exit */
 extern int __llvm_profile_write_file(void);
-static void cov_exit(int c) { __llvm_profile_write_file(); _exit(c); }
+extern void __llvm_profile_set_filename(const char *);
+static void cov_exit(int c) { static char b[400]; const char *d = getenv("VX_COV_DIR"); snprintf(b, sizeof b, "%s/w%d.profraw", d ? d : "/tmp", (int)getpid()); __llvm_profile_set_filename(b); __llvm_profile_write_file(); _exit(c); }
 #define _exit cov_exit
 #endif
 
